@@ -1909,6 +1909,8 @@ class rx:
         return self._apply_operator(operator.lshift, other, reverse=True)
     def __rmod__(self, other):
         return self._apply_operator(operator.mod, other, reverse=True)
+    def __rmatmul__(self, other):
+        return self._apply_operator(operator.matmul, other, reverse=True)
     def __rmul__(self, other):
         return self._apply_operator(operator.mul, other, reverse=True)
     def __ror__(self, other):
